@@ -169,7 +169,7 @@ func (c *chaosChannel) Send(ctx context.Context, m net.TaggedMarshaler, s ...net
 	return c.inner.Send(ctx, m, s...)
 }
 func (c *chaosChannel) SetUnmarshaler(u func() net.TaggedUnmarshaler) { c.inner.SetUnmarshaler(u) }
-func (c *chaosChannel) SetFilter(f net.BroadcastChannelFilter) error   { return c.inner.SetFilter(f) }
+func (c *chaosChannel) SetFilter(f net.BroadcastChannelFilter) error  { return c.inner.SetFilter(f) }
 
 func (c *chaosChannel) Recv(ctx context.Context, handler func(m net.Message)) {
 	c.inner.Recv(ctx, func(m net.Message) {
@@ -302,6 +302,7 @@ type MemberOut struct {
 	Err        string
 	PubKey     []byte
 	Misbehaved []group.MemberIndex
+	Operating  []group.MemberIndex // result.Group.OperatingMemberIndexes()
 	Ks         []*big.Int
 	ShareID    *big.Int
 	Share      *tecdsa.PrivateKeyShare
@@ -426,7 +427,7 @@ func RunDKG(g *Group, dishonest int, sessions []*Session, executors []*dkg.Execu
 			}
 			d := res.PrivateKeyShare.Data()
 			return &MemberOut{PubKey: pk, Misbehaved: res.MisbehavedMembersIndexes(), Ks: d.Ks, ShareID: d.ShareID,
-				Share: res.PrivateKeyShare}, nil
+				Share: res.PrivateKeyShare, Operating: res.Group.OperatingMemberIndexes()}, nil
 		})
 }
 
